@@ -733,3 +733,26 @@ Lemma load_and_delete_order_as_in_the_sources :
   c08_calls_delete = [b "s.tagResolver.Untag"; b "s.graph.Remove"; b "s.saveIndex"; b "s.storage.Delete"] /\
   c08_calls_GC = [b "s.sync.Lock"; b "s.gcIndex"; b "s.saveIndex"; b "os.Remove"].
 Proof. repeat split; reflexivity. Qed.
+
+(* the control flow around the effects (kind callguards): Store.tag registers the digest entry first
+   iff the reference is not the digest ([is_digest_ref] in st_tag) and saves iff AutoSaveIndex
+   ([maybe_save]); delete() drops the references of the target's DIGEST and saves iff something
+   changed and AutoSaveIndex ([changed] in delete1); GC saves iff AutoSaveIndex; Push tags manifests
+   only and removes content it cannot index; Tag indexes manifests only; loadIndex registers the tag
+   iff the ref name is not empty ([load_entry]) *)
+Lemma guards_as_in_the_sources :
+  c08_guards_tag =
+    [(b "s.tagResolver.Tag"%string, [b "reference != dgst"%string]); (b "s.tagResolver.Tag"%string, []); (b "s.saveIndex"%string, [b "s.AutoSaveIndex"%string])] /\
+  c08_guards_Untag =
+    [(b "s.tagResolver.Untag"%string, []); (b "s.saveIndex"%string, [b "s.AutoSaveIndex"%string])] /\
+  c08_guards_delete =
+    [(b "s.tagResolver.Untag"%string, [b "desc.Digest == target.Digest"%string]); (b "s.tagResolver.Tag"%string, []); (b "s.saveIndex"%string, [b "indexChanged && s.AutoSaveIndex"%string]); (b "s.storage.Delete"%string, [])] /\
+  c08_guards_GC =
+    [(b "s.gcIndex"%string, []); (b "s.tagResolver.Tag"%string, []); (b "s.saveIndex"%string, [b "s.AutoSaveIndex"%string])] /\
+  c08_guards_Push =
+    [(b "s.storage.Push"%string, []); (b "s.graph.Index"%string, []); (b "s.storage.Delete"%string, [b "err != nil"%string]); (b "s.tag"%string, [b "descriptor.IsManifest(expected)"%string])] /\
+  c08_guards_Tag =
+    [(b "s.storage.Exists"%string, []); (b "s.graph.Index"%string, [b "descriptor.IsManifest(desc)"%string]); (b "s.tag"%string, [])] /\
+  c08_guards_loadIndex =
+    [(b "tagger.Tag"%string, []); (b "tagger.Tag"%string, [b "ref != ''"%string]); (b "graph.IndexAll"%string, [])].
+Proof. repeat split; reflexivity. Qed.
